@@ -216,7 +216,9 @@ def build(C, opt):
             def equation(self, t, x, u, params):
                 return self.residual(u(t, x, params), params)
 
-    params = jinns.parameters.Params(nn_params=u.init_params(), eq_params={"theta": jnp.array([TH0, TH0] if partial else TH0), "nu": jnp.array(0.0)})
+    infleaf = bool(opt.get("infleaf"))
+    extra = {"clip": jnp.array([-jnp.inf, jnp.inf])} if infleaf else {}        # an unused, NaN-free leaf holding both infinities (an inactive clipping interval)
+    params = jinns.parameters.Params(nn_params=u.init_params(), eq_params=dict({"theta": jnp.array([TH0, TH0] if partial else TH0), "nu": jnp.array(0.0)}, **extra))
     # resumed runs start from a later version
     v0 = C.get("v0", 0)
     params = jax.tree.map(lambda x: x, params)
@@ -277,6 +279,8 @@ def build(C, opt):
 
             upd = jax.tree.map(dec, g)
             upd = eqx.tree_at(lambda q: q.eq_params["nu"], upd, jnp.zeros_like(g.eq_params["nu"]))
+            if infleaf:
+                upd = eqx.tree_at(lambda q: q.eq_params["clip"], upd, jnp.zeros_like(g.eq_params["clip"]))
             return upd, s + 1
 
         optimizer = optax.GradientTransformation(init, update)
@@ -359,7 +363,7 @@ def build(C, opt):
     tp = None
     if tracked != "none":
         tp = jinns.parameters.Params(nn_params=jax.tree.map(lambda _: True, params.nn_params) if tracked in ("nn", "both") else None,
-                                     eq_params={"theta": True if tracked in ("eq", "both") else None, "nu": None})
+                                     eq_params=dict({"theta": True if tracked in ("eq", "both") else None, "nu": None}, **({"clip": None} if infleaf else {})))
 
     # obs_batch_sharding selects the OTHER implementation of the loop (plain Python while, non-jitted get_batch with device_put)
     shard = jax.sharding.SingleDeviceSharding(jax.devices()[0]) if (opt.get("shard") and obs_data is not None) else None
